@@ -342,10 +342,11 @@ impl ThreadAllocInfo {
     pub fn tally_alloc(&mut self, size: usize) {
         self.tally_op(AllocOp::Alloc, size);
 
-        self.current_count += 1;
+        self.current_count = self.current_count.wrapping_add(1);
         self.max_count = self.max_count.max(self.current_count);
 
-        self.current_size += size as ThreadAllocCountSigned;
+        self.current_size =
+            self.current_size.wrapping_add(size as ThreadAllocCountSigned);
         self.max_size = self.max_size.max(self.current_size);
     }
 
@@ -354,8 +355,9 @@ impl ThreadAllocInfo {
     pub fn tally_dealloc(&mut self, size: usize) {
         self.tally_op(AllocOp::Dealloc, size);
 
-        self.current_count -= 1;
-        self.current_size -= size as ThreadAllocCountSigned;
+        self.current_count = self.current_count.wrapping_sub(1);
+        self.current_size =
+            self.current_size.wrapping_sub(size as ThreadAllocCountSigned);
     }
 
     /// Tallies the total count and size of the reallocation operation.
@@ -368,7 +370,8 @@ impl ThreadAllocInfo {
         self.tally_op(AllocOp::realloc(is_shrink), abs_diff);
 
         // NOTE: Realloc does not change allocation count.
-        self.current_size += diff as ThreadAllocCountSigned;
+        self.current_size =
+            self.current_size.wrapping_add(diff as ThreadAllocCountSigned);
         self.max_size = self.max_size.max(self.current_size);
     }
 
@@ -376,8 +379,8 @@ impl ThreadAllocInfo {
     #[inline]
     fn tally_op(&mut self, op: AllocOp, size: usize) {
         let tally = self.tallies.get_mut(op);
-        tally.count += 1;
-        tally.size += size as ThreadAllocCount;
+        tally.count = tally.count.wrapping_add(1);
+        tally.size = tally.size.wrapping_add(size as ThreadAllocCount);
     }
 }
 
